@@ -48,7 +48,8 @@ pub fn build_del_case_full(sec: usize, n: usize, mask: u32, opt_pos: usize, dele
 
 /// `shape`: 0 = everyday names; 1 = smallest legal records (root question, root and one-label owners,
 /// empty data: a 5-byte question, 11-byte records); 2 = largest names (255 bytes on the wire, 63-byte
-/// labels); 3 = labels with bytes >= 0x80, blanks and `@`.
+/// labels); 3 = labels with bytes >= 0x80, blanks and `@`; 4 = everyday names, but every TXT record carries
+/// 65535, 65530, 65525 ... data bytes (records longer than 16 bits can count, packets beyond 65535 bytes).
 #[allow(clippy::too_many_arguments)]
 pub fn build_del_case_shaped(sec: usize, n: usize, mask: u32, opt_pos: usize, delete_opt: bool, incl_opt: bool, compressed: bool, layout_seed: &[u8], filler: usize, others: [usize; 3], shape: usize) -> DelCase {
     use crate::enc::{encode, Layout};
@@ -82,7 +83,18 @@ pub fn build_del_case_shaped(sec: usize, n: usize, mask: u32, opt_pos: usize, de
             0 => Record { owner, rtype: T_A, class: 1, ttl, rdata: Rdata::A([10, 0, 0, i as u8]) },
             1 => Record { owner, rtype: T_NS, class: 1, ttl, rdata: Rdata::Name1(names[(i + 2) % names.len()].clone()) },
             2 => Record { owner, rtype: T_MX, class: 1, ttl, rdata: Rdata::Mx(i as u16, names[(i + 1) % names.len()].clone()) },
-            _ => Record { owner, rtype: T_TXT, class: 1, ttl, rdata: Rdata::Opaque(if shape == 1 { vec![] } else { vec![3, b'a', 0xc0, 0x0c] }) },
+            _ => Record {
+                owner,
+                rtype: T_TXT,
+                class: 1,
+                ttl,
+                rdata: Rdata::Opaque(match shape {
+                    1 => vec![],
+                    // the largest data lengths there are: the record is longer than 65535 bytes
+                    4 => vec![0xc0; 65535 - (i / 4) * 5],
+                    _ => vec![3, b'a', 0xc0, 0x0c],
+                }),
+            },
         }
     };
     let mut m = Message { id: 0x1111, flags: 0x8180, qd: vec![Question { name: names[0].clone(), qtype: 255, qclass: 1 }], ..Default::default() };
@@ -383,7 +395,7 @@ fn c11_case(data: &[u8], st: &mut Stats) -> PResult {
     // neighbour sections of 0..2 records (an empty section between two non-empty ones is a special case of the bookkeeping)
     let others = if src.chance(128) { [src.below(3), src.below(3), src.below(3)] } else { [2, 2, 2] };
     let others = if sec == 0 && others[0] == 0 { [1, others[1], others[2]] } else { others };
-    let shape = src.weighted(&[10, 3, 2, 2]);
+    let shape = src.weighted(&[20, 6, 4, 4, 1]);
     st.class(&format!("name-shape:{}", shape));
     let mut c = build_del_case_shaped(sec, n, mask, opt_pos, delete_opt, incl_opt, compressed, &seed, filler, others, shape);
     c.prehistory = filler == 0 && src.chance(if sec == 0 { 128 } else { 50 });
@@ -415,7 +427,7 @@ pub fn replay_c11(data: &[u8]) -> PResult {
 pub fn check_c11(ctx: &Ctx, known: &KnownFindings) -> Report {
     let mut rep = Report::new("C11");
     let ks = known_sigs(known, "C11");
-    rep.rule = "walks over the question, answer, authority and additional sections (n = 0..12 records identified by unique TTLs; OPT absent/first/middle/last; compressed or literal; next() and next_including_opt()) deleting a chosen subset from within the walk. Name shapes: everyday, smallest legal records (root question and owners, empty data), 255-byte names, labels with bytes >= 0x80. Exhaustive part: every subset of every section size n <= 5 (quick) / n <= 7 (thorough) x section x OPT position x layout x three neighbour-section shapes (2/2/2, 0/0/1, 1/0/0 records); random part: n up to 12 with forced classes (none, all, first, last, adjacent). Oracle: walk ends within (n+1)(n+3)+4 yields; each delete removes exactly the record under the cursor (decoded before/after), lowers only that count, second delete = VoidRecord and changes nothing; no deleted record yielded again; every survivor yielded; final section = survivors in order; emptied section reads as absent; final C08 view. Non-trivial: n >= 2 and >= 1 deletion.".into();
+    rep.rule = "walks over the question, answer, authority and additional sections (n = 0..12 records identified by unique TTLs; OPT absent/first/middle/last; compressed or literal; next() and next_including_opt()) deleting a chosen subset from within the walk. Name shapes: everyday, smallest legal records (root question and owners, empty data), 255-byte names, labels with bytes >= 0x80, and records with 65525..65535 data bytes (longer than a 16-bit length, in packets beyond 65535 bytes). Exhaustive part: every subset of every section size n <= 5 (quick) / n <= 7 (thorough) x section x OPT position x layout x three neighbour-section shapes (2/2/2, 0/0/1, 1/0/0 records); random part: n up to 12 with forced classes (none, all, first, last, adjacent). Oracle: walk ends within (n+1)(n+3)+4 yields; each delete removes exactly the record under the cursor (decoded before/after), lowers only that count, second delete = VoidRecord and changes nothing; no deleted record yielded again; every survivor yielded; final section = survivors in order; emptied section reads as absent; final C08 view. Non-trivial: n >= 2 and >= 1 deletion.".into();
     rep.assumptions = vec!["records of the walked section carry unique TTLs assigned at generation time (identification without touching the packet)".into()];
     // exhaustive subsets
     let nmax = match ctx.tier {
@@ -476,9 +488,9 @@ pub fn check_c11(ctx: &Ctx, known: &KnownFindings) -> Report {
         }
     }
     // smallest and largest records: every subset for n <= 4
-    'shapes: for shape in 1..4usize {
+    'shapes: for shape in 1..5usize {
         for sec in 1..=3usize {
-            for n in 0..=4usize {
+            for n in 0..=(if shape == 4 { 3usize } else { 4 }) {
                 for mask in 0..(1u32 << n) {
                     for opt_pos in [0usize, 2] {
                         for compressed in [false, true] {
@@ -510,7 +522,7 @@ pub fn check_c11(ctx: &Ctx, known: &KnownFindings) -> Report {
     rep.absorb(r);
     rep.require(&[
         "section:0", "section:1", "section:2", "section:3", "delete:none", "delete:all", "delete:some", "delete:adjacent", "delete:first", "delete:last", "delete:opt", "emptied-section",
-        "layout:compressed", "layout:literal", "exhaustive-subsets", "around-offset-16384", "prehistory:decompress-then-rename", "prehistory:question-cache-warm", "question-deleted-before-the-walk", "empty-neighbour-section", "name-shape:1", "name-shape:2", "name-shape:3",
+        "layout:compressed", "layout:literal", "exhaustive-subsets", "around-offset-16384", "prehistory:decompress-then-rename", "prehistory:question-cache-warm", "question-deleted-before-the-walk", "empty-neighbour-section", "name-shape:1", "name-shape:2", "name-shape:3", "name-shape:4",
     ]);
     rep
 }
